@@ -65,6 +65,16 @@ theorem intersection_order (a : Tree w L) (b : Tree w R) (hwa : HasWF a) (hwb : 
     | none => exact List.Sublist.cons _ ih
     | some y => simpa using ih.cons_cons x
 
+/-- the operands can be swapped: every item of `intersection(a, b)` has a counterpart in
+`intersection(b, a)` under the same key, reporting `b`'s stored prefix and `b`'s node and value as
+its left part -/
+theorem intersection_swap (a : Tree w L) (b : Tree w R) (hwa : HasWF a) (hwb : HasWF b)
+    (i : IItem w L R) (hi : i ∈ intersection a b) :
+    ∃ j ∈ intersection b a, j.p.net = i.p.net ∧ j.l = i.r := by
+  obtain ⟨ha, pb, hb, hk⟩ := intersection_sound a b hwa hwb i hi
+  obtain ⟨j, hj, hjp, hjl⟩ := intersection_complete b a hwb hwa (i.r.1, pb, i.r.2) hb (i.l.1, i.p, i.l.2) ha hk
+  exact ⟨j, hj, by rw [hjp]; exact hk, hjl⟩
+
 /-- two sub-views whose roots are incomparable (disjoint sub-views of one map, or of two maps) have an
 empty intersection -/
 theorem disjoint_roots_empty {sa : Nat} {pa : Pfx w} {va : Option L} {la ra : Tree w L}
